@@ -5,6 +5,15 @@ import subprocess, sys, os
 prop, rel = sys.argv[1], sys.argv[2]
 path = os.path.join("/repo/falcon-rust/src", rel)
 orig = open(path).read()
+import shutil, tempfile
+_ev_backup = tempfile.mkdtemp(prefix="evbak")
+shutil.copytree("/verif/evidence", _ev_backup + "/evidence")
+import atexit
+def _restore():
+    shutil.rmtree("/verif/evidence", ignore_errors=True)
+    shutil.copytree(_ev_backup + "/evidence", "/verif/evidence")
+    shutil.rmtree(_ev_backup, ignore_errors=True)
+atexit.register(_restore)
 only = os.environ.get("VERIF_ONLY_UNITS")
 for line in sys.stdin:
     line = line.rstrip("\n")
